@@ -137,14 +137,16 @@ def readBit : P Bool := fun s =>
   | [] => .error
 
 /-- count leading zero bits up to and including the terminating one (`read_unary1`) -/
-def readUnary (k : Nat) : Bits → Res (Nat × Bits)
+def readUnaryAux (k : Nat) : Bits → Res (Nat × Bits)
   | [] => .error
   | true :: rest => .ok (k, rest)
-  | false :: rest => readUnary (k+1) rest
+  | false :: rest => readUnaryAux (k+1) rest
+
+def readUnary (k : Nat) : P Nat := readUnaryAux k
 
 /-- `get_ue` -/
 def readUe : P Nat := do
-  let k ← (readUnary 0 : P Nat)
+  let k ← readUnary 0
   if k = 0 then pure 0
   else if k > 64 then P.fail           -- bitstream-io: "excessive bits for type read"
   else do
